@@ -771,6 +771,37 @@ Fixpoint run_changes (x : ectx) (pol : policy_fn) (emax : N) (raddr : ipaddr) (c
         Ok (fst r1 ++ fst r2, snd r2)))
   end.
 
+(* PeerSession::handle_prefix_update (event/mod.rs), the caller of process_nlri_change for
+   every change a neighbour's task receives, for a family that is not a VPN family: nothing
+   when the family was not negotiated; otherwise process_nlri_change with the session's
+   send-max for the family, its address, cluster id, export context and export policy, into
+   the family's PendingTx.  (The same policy may panic: process_change_r.) *)
+Fixpoint run_updates (has_family : bool) (x : ectx) (polr : policy_fn_r) (emax : N) (raddr : ipaddr)
+         (cid : option N) (cs : list change) (e : emap) : res (list sinkop * emap) :=
+  match cs with
+  | [] => Ok ([], e)
+  | c :: t =>
+    rbind (if has_family then process_change_r x polr emax raddr cid c e else Ok ([], e)) (fun r1 =>
+      rbind (run_updates has_family x polr emax raddr cid t (snd r1)) (fun r2 =>
+        Ok (fst r1 ++ fst r2, snd r2)))
+  end.
+
+(* PendingTx (peer_tx.rs): reach / unreach keyed by (path id - 0 unless Add-Path TX -, NLRI),
+   the last operation for a key wins; drain_messages hands over what is pending.  The model
+   has one NLRI per destination id. *)
+Inductive pending := PNothing | PUnreach | PReach (nh : option nexthop) (attrs : list attr).
+
+Fixpoint pending_after (addpath_tx : bool) (ops : list sinkop) (d key : N) (st : pending) : pending :=
+  match ops with
+  | [] => st
+  | Unreach d' p' :: t =>
+    pending_after addpath_tx t d key
+      (if (d' =? d) && ((if addpath_tx then p' else 0) =? key) then PUnreach else st)
+  | Reach d' p' nh a _ :: t =>
+    pending_after addpath_tx t d key
+      (if (d' =? d) && ((if addpath_tx then p' else 0) =? key) then PReach nh a else st)
+  end.
+
 (* ------------------------------------------------------------ the LLGR period begins
    Table::restale_llgr(addr, family) (table/src/lib.rs, since 03ea310), for one
    destination that holds a path of the peer: the shared llgr_stale flag of the
@@ -953,7 +984,9 @@ Inductive case :=
 | CHistory (x : ectx) (emax : N) (raddr : ipaddr) (cid : option N) (cs : list change) (probe : list N) (* 13 *)
 | CProcessRtc (x : ectx) (emax : N) (raddr : ipaddr) (cid : option N) (c : change) (e : emap) (probe : list N)
               (accept_all : bool) (rts : list (list N))                 (* 14: with an RtcFilter *)
-| CRestale (old_best : option N) (any_from_addr : bool) (addr : ipaddr) (paths : list path). (* 15: restale_llgr's stream *)
+| CRestale (old_best : option N) (any_from_addr : bool) (addr : ipaddr) (paths : list path) (* 15: restale_llgr's stream *)
+| CUpdates (has_family : bool) (x : ectx) (emax : N) (raddr : ipaddr) (cid : option N) (cs : list change)
+           (pol : option (stmt * option prepend_action * disp)) (probe : list (N * N)).  (* 17: handle_prefix_update + PendingTx *)
 
 Definition run_case (c : case) : val :=
   match c with
@@ -989,4 +1022,17 @@ Definition run_case (c : case) : val :=
     VList (fun c => VL [VB (c_best_changed c); VB (c_any_changed c); VOpt VN (c_replaced c);
                         VNs (map p_lpid (c_paths c))])
           (restale_llgr_changes IPV4_UNICAST 1 old any addr paths)
+  | CUpdates hf x emax raddr cid cs pol probe =>
+    let polr := match pol with
+                | None => lift_policy no_policy
+                | Some (st, pre, dflt) => stmt_policy_r x raddr st pre dflt
+                end in
+    v_res (fun r =>
+             VL [VList (fun dk => match pending_after (negb (emax =? 1)) (fst r) (fst dk) (snd dk) PNothing with
+                                  | PNothing => VL []
+                                  | PUnreach => VL [VN 0]
+                                  | PReach nh a => VL [VN 1; VOpt v_nh nh; v_attrs a]
+                                  end) probe;
+                 VList (fun d => VNs (sort_n (em_sent_path_ids (snd r) d))) (map fst probe)])
+          (run_updates hf x polr emax raddr cid cs (if emax =? 1 then ENone else EAddPath []))
   end.
